@@ -11,7 +11,7 @@ ENV_BY_TIER = {"quick": {"NUMBA_DISABLE_JIT": "1"}, "thorough": {"NUMBA_DISABLE_
 RULE = ("dating calls: {date(method=..), named function} x 3 methods x record_provenance in {None, True, False} x "
         "generic parameters (time_units, progress, mutation_rate as float/np.float64, population_size as float / "
         "dict / PopulationSizeHistory) x method arguments (explicit or defaulted) x 0..4 earlier provenance "
-        "records, plus values json cannot dump (ndarray, numpy ints, float32); preprocess_ts over "
+        "records, plus numpy-typed values (ndarray, numpy ints, float32: must be recorded as lists / python numbers); preprocess_ts over "
         "minimum_gap/erase_flanks/delete_intervals/split_disjoint/filter_*/record_provenance and simplify kwargs; "
         "split_disjoint_nodes. Non-trivial: recording is on; distinct by content hash")
 ASSUME = ["json.dumps / tskit.validate_provenance are external", "default values of the wrappers are tabulated in the "
@@ -41,9 +41,18 @@ K4_SIG = "c33:unserialisable-parameter"
 UNREC_SIG = "c33:parameter-not-recorded"
 
 
+def _json_default(obj):
+    """what provenance.record_provenance converts since the K4 repair (commit 41e0a45)"""
+    if isinstance(obj, np.ndarray):
+        return obj.tolist()
+    if isinstance(obj, np.generic):
+        return obj.item()
+    raise TypeError("not JSON serializable")
+
+
 def dumpable(v):
     try:
-        json.dumps(v)
+        json.dumps(v, default=_json_default)
         return True
     except TypeError:
         return False
@@ -141,7 +150,7 @@ def gen_dating_call(rng, ts):
     if rng.random() < 0.25:
         k = rng.choice(UNRECORDED)
         extra[k] = {"constr_iterations": 3, "min_branch_length": 0.01, "allow_unary": True, "set_metadata": False}[k]
-    # a value json cannot dump (K4)
+    # numpy-typed values (K4, repaired in 41e0a45): must be recorded as their python equivalents
     bad = None
     if rng.random() < 0.15:
         if method == "variational_gamma":
